@@ -23,6 +23,7 @@ from __future__ import annotations
 
 import inspect
 import itertools
+import os
 
 from .. import core, explore
 from ..harness import c20_wire as wire
@@ -36,6 +37,7 @@ LEVEL = 'exploration'
 # ---------------------------------------------------------------------------
 _P = bytes(range(251))
 _T = [bytes((x + 37 * t) & 0xFF for x in range(256)) for t in range(16)]
+_SEED = int(os.environ.get('VERIF_SEED', '0') or 0)  # only picks the fill bytes among equivalent representatives
 
 
 def pattern(tag: int, off: int, n: int) -> bytes:
@@ -45,7 +47,7 @@ def pattern(tag: int, off: int, n: int) -> bytes:
     if n <= 0:
         return b''
     s = off % 251
-    return (_P * ((n + s) // 251 + 2))[s : s + n].translate(_T[tag % 16])
+    return (_P * ((n + s) // 251 + 2))[s : s + n].translate(_T[(tag + 5 * _SEED) % 16])
 
 
 # ---------------------------------------------------------------------------
